@@ -160,7 +160,7 @@ func (p *EnvExpr) Pos() token.Pos {
 // End - position of first character immediately after the node.
 func (p *EnvExpr) End() token.Pos {
 	if p.Rbrace != token.NoPos {
-		return p.Rbrace
+		return p.Rbrace + 1
 	}
 	return p.Name.End()
 }
